@@ -516,7 +516,8 @@ namespace fixedmath
     [[ gnu::const, gnu::always_inline ]]
     constexpr fixed_t fixed_divisionf( fixed_t x, fixed_t y) noexcept
       {
-      if( fixed_likely(y.v != 0) )
+      //x << 16 keeps the value only for |x| < 2^31, beyond that the quotient was garbage and INT64_MIN / -1 trapped
+      if( fixed_likely(y.v != 0 && x.v > -(fixed_internal{1}<<47) && x.v < (fixed_internal{1}<<47) ) )
         {
         fixed_t result { as_fixed( (x << 16).v / y.v ) };
 //         if( fixed_likely( check_division_result(result)) )
@@ -553,6 +554,12 @@ namespace fixedmath
     [[ gnu::const, gnu::always_inline ]]
     constexpr fixed_t fixed_division_by_scalar(fixed_t lh, integral_type rh ) noexcept
       {
+      if constexpr ( is_unsigned_v<integral_type> && sizeof(integral_type) == sizeof(fixed_internal) )
+        {
+        //value does not fit signed type and is greater than any |lh|
+        if( fixed_unlikely( rh > static_cast<integral_type>( std::numeric_limits<fixed_internal>::max() ) ) )
+          return as_fixed(0);
+        }
       if( fixed_likely(rh != 0) )
         {
         fixed_t const result = as_fixed( lh.v / promote_type_to_signed(rh) );
